@@ -16,7 +16,10 @@ product lattices ("parts"), each enumerated completely:
   g2sign  geo2: every sign table over {1, -1, 0}
   g2m     geo2, multi setup: every reference layout x name forms x routes
   big12   one fixed 12-sensor instance (geo1 and geo2) under a family of row permutations
-  cor1/2  every single-fault corruption (of the kinds the statement lists) of valid table sets -> ValueError
+  cor1/2  every single-fault corruption (of the kinds the statement lists) of valid table sets -> ValueError; the offending
+          label is an invented one ('zz', 99, 'c9') or one BORROWED from another table of the same set (a constraint row
+          name, a mapping filler '0' / '0.0' / 'interp', a point / node number as int or string, a column header, another
+          sensor's name, a raw reference-channel name) at every place a label is looked up; 0, 1 or 2 constraints
   plot1/2 plot_mode_geo1 / plot_mode_geo2_mpl on Agg: 3-D line ends and scatter offsets read from the artists
 """
 import itertools
@@ -46,6 +49,7 @@ ASSUMPTIONS = [
     "a constraints table listing only a subset of the sensors, and coordinate/direction tables holding the same rows in different orders, are judged with a relaxed oracle (ValueError or the correct geometry)",
     "'sensors surfaces' column count is not judged (documented as '(p, ?)')",
     "optional arguments of def_geo1/def_geo2 are passed as DataFrames (the forms the validators can handle)",
+    "corruption labels: invented ones and labels borrowed from another table of the same set (listed under bounds.corruption_labels); a sensor literally named like a mapping filler ('0') and line / surface numbers pointing outside the point table are outside the statement and not explored",
 ]
 
 # ---------------------------------------------------------------------------------------------------------------
@@ -801,10 +805,56 @@ def cor1_list(n, opt_present, multi):
     return out
 
 
+def raw_ref_names(setups, ref):
+    """Multi-setup: the names the reference channels carry in the 'sensors names' table (legal there, but the sensor list
+    knows these channels as REF1..REFk only)."""
+    return [setups[i][ref[i][k]] for i in range(len(setups)) for k in range(len(ref[i]))]
+
+
+def cor1_borrowed(flat, setups=None, ref=None):
+    """geo1 corruptions 'unknown label that occurs elsewhere in the tables': the offending label is not invented ('zz') but a
+    legal token of ANOTHER place of the same table set - another sensor's name (a duplicate), a line / background-node number
+    (as int and as string), a column header of the coordinate table or of the names table, 'REF1', and for multi-setup
+    layouts the raw name of a reference channel.  arg = [row, token]."""
+    n = len(flat)
+    out = []
+    for r in range(n):
+        toks = [1, "1", str(r + 1), "x", "chann. 1"] + ([flat[(r + 1) % n]] if n >= 2 else [])
+        toks += ["REF1"] if setups is None else raw_ref_names(setups, ref)
+        seen = []
+        for tok in toks:
+            if tok in seen or tok == flat[r]:
+                continue
+            seen.append(tok)
+            for s in ("sensors coordinates", "sensors directions"):
+                out.append(("index-borrowed-label", s, [r, tok]))                  # one table only: indices mismatch
+            out.append(("coordinate-rows-borrowed-label", "both coordinate tables", [r, tok]))   # both: the name is absent
+    for tok in ["1", "x", "sensors lines"] + (["REF1"] if setups is None else raw_ref_names(setups, ref)[:2]):
+        if tok not in flat:
+            out.append(("extra-name-borrowed-label", "sensors names", [0, tok]))
+    return out
+
+
 def apply_cor1(sheets, states, kind, sheet, arg, flat, form, setups):
     d = dict(sheets)
     st = dict(states)
-    if kind == "drop-required":
+    if kind == "index-borrowed-label":
+        r, tok = arg
+        # position r of the SENSOR order (the table itself may be permuted)
+        d[sheet] = d[sheet].rename(index={flat[r]: tok})
+    elif kind == "coordinate-rows-borrowed-label":
+        r, tok = arg
+        d["sensors coordinates"] = d["sensors coordinates"].rename(index={flat[r]: tok})
+        d["sensors directions"] = d["sensors directions"].rename(index={flat[r]: tok})
+    elif kind == "extra-name-borrowed-label":
+        tok = arg[1]
+        if setups is None:
+            d["sensors names"] = names_form(form, list(flat) + [tok])
+        else:
+            s2 = [list(s) for s in setups]
+            s2[-1] = s2[-1] + [tok]
+            d["sensors names"] = names_form(form, s2)
+    elif kind == "drop-required":
         d.pop(sheet)
     elif kind == "unknown-sheet":
         d[sheet] = f_lines([[1, 1]])
@@ -923,10 +973,79 @@ def cor2_list(n, P, opt_present, with_c):
     return out
 
 
+CNAMES2 = ["c1", "c2"]
+
+
+def cor2_borrowed(n, P, opt_present, with_c):
+    """geo2 corruptions 'unknown label that occurs elsewhere in the tables': wherever a label is looked up (constraints
+    columns -> sensor names, constraints rows -> constraint names of the mapping, mapping cells / extra name -> sensor
+    names, point index of one table -> the other tables) the offending label is a legal token of ANOTHER table, not an
+    invented one: a constraint row name (a constraint written in terms of a constraint), the mapping fillers '0' / '0.0' /
+    0 / 'interp', a point label (as int, as string, zero-based), a column header, a sensor name, 'REF1'.
+    arg = [position, token]."""
+    flat = NAMES[:n]
+    cn = CNAMES2[:with_c]
+    out = []
+    # constraints COLUMNS must be sensor names: tokens that are not
+    if with_c:
+        for tok in cn + ["0", "0.0", 0, "interp", "1", 1, "x"]:
+            for pos in range(n + 1):                  # 0: an extra column; r + 1: column r relabelled
+                out.append(("constraint-column-borrowed-label", "constraints", [pos, tok]))
+    # constraints ROWS must be constraint names the mapping uses: tokens that are not (a sensor name, a filler, ...)
+    for tok in list(dict.fromkeys([flat[0], flat[-1], "0", "0.0", "interp", "1", "x"])):
+        for pos in range(with_c + 1):                 # 0: an extra row; k + 1: row k relabelled
+            out.append(("constraint-row-borrowed-label", "constraints", [pos, tok]))
+    # every mapping cell naming sensor r names something else that is legal elsewhere: the sensor is absent from the mapping
+    for r in range(n):
+        for tok in cn + ["1", 1, "x", "interp"] + ([flat[(r + 1) % n]] if n >= 2 else []):
+            out.append(("mapping-cell-borrowed-label", "mapping", [r, tok]))
+    for tok in ["1", "x", "REF1", "points coordinates"]:
+        out.append(("extra-name-borrowed-label", "sensors names", [0, tok]))
+    # the point label of ONE table replaced by a label that is legal elsewhere: the indices no longer agree
+    for s in ("points coordinates", "mapping") + (("sensors sign",) if opt_present else ()):
+        for r in range(P):
+            seen = []
+            for tok in [str(r + 1), r, flat[0], "x", (r + 1) % P + 1 if P >= 2 else 3]:
+                if tok not in seen and tok != r + 1:
+                    seen.append(tok)
+                    out.append(("index-borrowed-label", s, [r, tok]))
+    return out
+
+
 def apply_cor2(sheets, states, kind, sheet, arg, flat, form, with_c):
     d = dict(sheets)
     st = dict(states)
-    if kind == "drop-required":
+    if kind == "constraint-column-borrowed-label":
+        pos, tok = arg
+        c = d["constraints"].copy()
+        if pos == 0:
+            c[tok] = 1.0
+        else:
+            c = c.rename(columns={c.columns[pos - 1]: tok})
+        d["constraints"] = c
+        st["constraints"] = 2
+    elif kind == "constraint-row-borrowed-label":
+        pos, tok = arg
+        if not with_c:
+            d["constraints"] = f_cstr([FIXED_C[:len(flat)]], [tok], flat)
+        elif pos == 0:
+            c = d["constraints"]
+            d["constraints"] = pd.concat([c, c.iloc[:1].rename(index={c.index[0]: tok})])
+        else:
+            c = d["constraints"]
+            d["constraints"] = c.rename(index={c.index[pos - 1]: tok})
+        st["constraints"] = 2
+    elif kind == "mapping-cell-borrowed-label":
+        r, tok = arg
+        m = d["mapping"].to_numpy().astype(object)
+        m[m == flat[r]] = tok
+        d["mapping"] = f_obj(m, d["mapping"].index)
+    elif kind == "extra-name-borrowed-label":
+        d["sensors names"] = names_form(form, list(flat) + [arg[1]])
+    elif kind == "index-borrowed-label":
+        r, tok = arg
+        d[sheet] = d[sheet].rename(index={d[sheet].index[r]: tok})
+    elif kind == "drop-required":
         d.pop(sheet)
     elif kind == "unknown-sheet":
         d[sheet] = f_lines([[1, 1]])
@@ -974,9 +1093,11 @@ def judge_cor2(case, t):
     seed, n, P, form, route, o, with_c = case["seed"], case["n"], case["P"], case["form"], case["route"], case["opt"], case["with_c"]
     kind, sheet, arg = case["kind"], case["sheet"], case["arg"]
     flat = NAMES[:n]
-    cells = (list(flat) + (["c1"] if with_c else []) + [0, np.nan, 0, 0, 0, 0])[:3 * P]
+    cn = tuple(CNAMES2[:with_c])                 # with_c = 2: two constraints c1, c2 (both used by the mapping)
+    Cm = [FIXED_C[:n], FIXED_C[1:n + 1]][:max(1, with_c)]
+    cells = (list(flat) + list(cn) + [0, np.nan, 0, 0, 0, 0])[:3 * P]
     sign = ([1, -1, 1, -1, 0, 1])[:3 * P]
-    sheets, exp = geo2_sheets(seed, flat, P, cells, names_form(form, flat), ("c1",), [FIXED_C[:n]], flat, sign)
+    sheets, exp = geo2_sheets(seed, flat, P, cells, names_form(form, flat), cn or ("c1",), Cm, flat, sign)
     states = {k: o for k in G2_OPT}
     states["constraints"] = 2 if with_c else 0
     d, st = apply_cor2(sheets, states, kind, sheet, arg, flat, form, with_c)
@@ -984,7 +1105,7 @@ def judge_cor2(case, t):
     relaxed = None
     if kind == "reorder-rows":
         phi = pay(seed)["PHI"][:n, 0]
-        expmap = ref_map_values(cells, flat, phi, ("c1",) if with_c else (), [FIXED_C[:n]], flat)
+        expmap = ref_map_values(cells, flat, phi, cn, Cm, flat)
         relaxed = lambda o_: geo2_errors(o_, exp, st, phi, expmap)      # noqa: E731  (aligned by label = the uncorrupted geometry)
     judge_corruption(t, r, case, "geo2", kind, sheet, route, obj, relaxed_ok=relaxed)
     return True
@@ -1430,7 +1551,7 @@ def explicit_cases(part, a, seed):
                         if route == "file" and form != "row":
                             continue
                         for o in (0, 2):
-                            for kind, sheet, arg in cor1_list(n, o == 2, False):
+                            for kind, sheet, arg in cor1_list(n, o == 2, False) + cor1_borrowed(NAMES[:n]):
                                 if route_supports(route, kind):
                                     out.append({"n": n, "perm": list(perm), "form": form, "route": route, "opt": o,
                                                 "kind": kind, "sheet": sheet, "arg": arg})
@@ -1441,7 +1562,7 @@ def explicit_cases(part, a, seed):
                 for route in ("func", "poser", "file_preger"):
                     if route.startswith("file") and form != "table":
                         continue
-                    for kind, sheet, arg in cor1_list(n, True, True):
+                    for kind, sheet, arg in cor1_list(n, True, True) + cor1_borrowed(flat, setup_names(chans), ref):
                         if route_supports(route, kind):
                             out.append({"n": n, "perm": list(range(n - 1, -1, -1)), "form": form, "route": route, "opt": 2,
                                         "kind": kind, "sheet": sheet, "arg": arg, "chans": chans, "ref": ref})
@@ -1452,10 +1573,10 @@ def explicit_cases(part, a, seed):
                     if route == "file" and form != "row":
                         continue
                     for o in (0, 2):
-                        for with_c in (0, 1):
-                            if with_c and 3 * P < n + 1:
+                        for with_c in (0, 1, 2):
+                            if with_c and 3 * P < n + with_c:
                                 continue
-                            for kind, sheet, arg in cor2_list(n, P, o == 2, with_c):
+                            for kind, sheet, arg in cor2_list(n, P, o == 2, with_c) + cor2_borrowed(n, P, o == 2, with_c):
                                 if route_supports(route, kind):
                                     out.append({"n": n, "P": P, "form": form, "route": route, "opt": o, "with_c": with_c,
                                                 "kind": kind, "sheet": sheet, "arg": arg})
@@ -1725,6 +1846,16 @@ def explore(ctx):
     ctx.bounds = {
         "sensor_names": NAMES, "coefficient_alphabet": COEF, "sign_alphabet": SIGN,
         "mapping_cell_alphabet": "sensor names + ['c1', 0, NaN]", "optional_sheet_states": ["absent", "empty", "present"],
+        "corruption_labels": {"invented": ["zz", 99, "c9"],
+                              "borrowed_from_another_table (not a sensor name / not the expected label there)": [
+                                  "constraint row names c1, c2", "mapping fillers '0', '0.0', 0, 'interp'",
+                                  "point / line / background-node numbers as int, as string and zero-based",
+                                  "column headers 'x', 'chann. 1'", "another sensor's name", "sheet names", "'REF1'",
+                                  "raw names of the reference channels (multi-setup)"],
+                              "places": ["constraints columns", "constraints rows", "mapping cells", "extra sensor name",
+                                         "index of one of points coordinates / mapping / sensors sign",
+                                         "index of one or both of sensors coordinates / sensors directions"],
+                              "cor2_constraints": "none / c1 / c1 and c2"},
         "name_forms": ["row table", "list", "array", "multi-row table padded with NaN", "list of lists"],
         "routes": ["check_on_geo1/2", "SingleSetup.def_geo*", "MultiSetup_PreGER.def_geo*", "MultiSetup_PoSER.def_geo*",
                    "def_geo*_by_file with read_excel_file replaced"],
@@ -1747,6 +1878,11 @@ def explore(ctx):
                 "cor:geo2:drop-row->ValueError", "cor:geo2:name-absent-from-mapping->ValueError",
                 "cor:geo2:constraint-unknown-sensor->ValueError", "cor:geo2:constraint-never-used->ValueError",
                 "cor:geo2:rename-index->ValueError", "shipped:accepted-and-aligned",
+                # corruption family 'unknown label that occurs elsewhere in the tables'
+                "cor:geo2:constraint-column-borrowed-label->ValueError", "cor:geo2:constraint-row-borrowed-label->ValueError",
+                "cor:geo2:mapping-cell-borrowed-label->ValueError", "cor:geo2:extra-name-borrowed-label->ValueError",
+                "cor:geo2:index-borrowed-label->ValueError", "cor:geo1:index-borrowed-label->ValueError",
+                "cor:geo1:coordinate-rows-borrowed-label->ValueError", "cor:geo1:extra-name-borrowed-label->ValueError",
                 "reuse:second-definition-right", "reuse:caller-tables-unchanged")
 
 
